@@ -96,9 +96,10 @@ def prop_case(case):
     moves = simrun.legal_moves(case)
     init = simrun.initial_status(case)
     scripted = (case.get('rule') or {}).get('kind') == 'table'
+    coarse = abs(tmin) >= 1e8           # float clock at |t| >= 1e8 (spacing >= 1.5e-8): two changes of one node can share an instant
     for u in nodes:
         ts, ss = hist[u]
-        if not scripted and ts and (ss[0] != init[u] or any(b <= a for a, b in zip(ts, ts[1:])) and not disc):
+        if not scripted and ts and (ss[0] != init[u] or any(b <= a for a, b in zip(ts, ts[1:])) and not disc and not coarse):
             fails.append(Failure('%s:history-first-entry' % sim, 'history of %r is %r: it should start with the initial status %r at tmin and '
                                  '(continuous time, real RNG) have strictly increasing times' % (u, hist[u], init[u])))
             break
